@@ -163,12 +163,31 @@ def run(ctx, rep) -> None:
     # ---------------- C17.1 / C17.2 over all cases
     n_reject = n_accept = 0
     stored_checked = 0
+    # a preconditioner config reaches the constructor as its own __post_init__ left it (the documented field is a list of ints)
+    pc = repo.cls(f"{TYPES}:PreconditionerConfig")
+    post = [k.methods["__post_init__"] for k in reversed(repo.mro(pc)) if "__post_init__" in k.methods]
+    cfg_res = _module_const_resolver(repo, pc.module)
+
+    def built_config(ignored: list[int]):
+        ns = SimpleNamespace(ignored_dims=list(ignored), num_tolerated_failed_amortized_computations=3, amortized_computation_config="<config>")
+        for fi in post:
+            try:
+                Interp({"self": ns}, resolve_name=cfg_res, call_hook=lambda i, c: None if "super()" in ast.unparse(c.func) else MISSING).run([s for s in fi.node.body if not (isinstance(s, ast.Expr) and isinstance(s.value, ast.Constant))], exc_res)
+            except Unsupported as u:
+                raise AnalysisError(f"C17.1: {fi.qual} uses a construct outside the validation sub-language: {u}") from u
+        return ns
+
     for label, delta in _cases():
         env = dict(base)
         env["preconditioner_config"] = SimpleNamespace(ignored_dims=[])
         env.update(delta)
         env["self"] = SimpleNamespace()
         want = _oracle(env)
+        if "preconditioner_config" in delta:
+            try:
+                env["preconditioner_config"] = built_config(delta["preconditioner_config"].ignored_dims)
+            except Raised:
+                continue  # rejected by the config class itself: the constructor is never reached with it
         it = Interp(env, resolve_name=res)
         try:
             it.run(prefix, exc_res)
